@@ -4,8 +4,9 @@ package main
 // Streams: fixed probes; exhaustive escape strings; exhaustive smallest configurations; every string length
 // class boundary (n-2..n+2) in every role for every schema size around the fixmap/map16 boundary; random
 // configurations; record sequences (exact repeats, same length / other content, long then short, overflowing
-// then fitting); buffer sizes around the size of the event; rejected / odd configurations; long keys; values
-// and keys around 65536 bytes.
+// then fitting); buffer sizes around the size of the event and around maxEncodedLength (the bound that selects the
+// one-off buffer), including the ~1 MB events for which that bound is tight; rejected / odd configurations; long
+// keys; values and keys around 65536 bytes.
 
 import (
 	"fmt"
@@ -253,6 +254,66 @@ func c10Mutate(r *Rng, prev c10Rec, lens []int) c10Rec {
 		return c10RandRec(r, len(prev.fields), lens)
 	}
 	return rc
+}
+
+// c10EnvHeavy: many environment entries (duplicates allowed), at most one visible field: the bound is close to the event
+func c10EnvHeavy(r *Rng) *c10Case {
+	ns := r.PickInt([]int{2, 3, 6, 15, 16, 17, 20})
+	cc := &c10Case{nout: 1, nrec: ns, schema: c10Schema(r, ns)}
+	rc := c10Rec{fields: make([]string, ns), unescaped: r.Chance(1, 5)}
+	rc.unix, rc.nsec = c10Time(r)
+	nenv := r.PickInt([]int{1, 2, 3, 5, 6, 8, 15, 16, 17})
+	for i := 0; i < nenv; i++ {
+		cc.env = append(cc.env, cc.schema[i%ns])
+	}
+	lens := []int{0, 5, 16, 17, 20, 40, 300}
+	if r.Chance(1, 3) {
+		lens = []int{16, 17, 20, 40}
+	}
+	for i := 0; i < ns && i < nenv; i++ {
+		rc.fields[i] = c10Value(r, r.PickInt(lens))
+	}
+	if nenv < ns && r.Bool() {
+		rc.fields[ns-1] = c10Value(r, r.PickInt([]int{1, 16, 40}))
+		if r.Chance(1, 3) {
+			cc.rw = []c10Rw{{field: cc.schema[ns-1], chain: c10Chain(r, cc.schema, r.Intn(2), r.Intn(2))}}
+		}
+	}
+	cc.recs = []c10Rec{rc}
+	return cc
+}
+
+// c10InlineHeavy: rewritten fields whose reserved maximum is far above len(value) (long inlined prefixes) and whose
+// actual length is far below it (escapes): the bound is far from the event and from the sum of the value lengths
+func c10InlineHeavy(r *Rng) *c10Case {
+	ns := r.PickInt([]int{3, 4, 5, 15})
+	cc := &c10Case{nout: 1, nrec: ns, schema: c10Schema(r, ns), env: []string{}}
+	rc := c10Rec{fields: make([]string, ns), unescaped: r.Chance(1, 6)}
+	rc.unix, rc.nsec = c10Time(r)
+	cc.env = []string{cc.schema[0]}
+	rc.fields[0] = c10Value(r, r.PickInt([]int{0, 3, 16}))
+	src := cc.schema[1]
+	rc.fields[1] = c10Value(r, r.PickInt([]int{1, 6, 20, 60, 300}))
+	if r.Bool() {
+		cc.hidden = []string{src}
+	}
+	nrw := 1 + r.Intn(2)
+	for k := 0; k < nrw && 2+k < ns; k++ {
+		ch := []c10Step{{code: c10Inline, field: src}}
+		if r.Chance(1, 3) {
+			ch = append(ch, c10Step{code: c10Inline, field: cc.schema[r.Intn(ns)]})
+		}
+		ch = append(ch, c10Step{code: r.PickInt([]int{c10Unescape, c10Unescape, c10Copy})})
+		cc.rw = append(cc.rw, c10Rw{field: cc.schema[2+k], chain: ch})
+		n := r.PickInt([]int{1, 2, 8, 20, 40})
+		if r.Bool() {
+			rc.fields[2+k] = strings.Repeat(`\n`, n)
+		} else {
+			rc.fields[2+k] = c10Value(r, n)
+		}
+	}
+	cc.recs = []c10Rec{rc}
+	return cc
 }
 
 func c10Gen(g *Gen) {
@@ -606,6 +667,124 @@ func c10Gen(g *Gen) {
 		c2 := *cc
 		c2.rw = nil
 		c10Emit(g, "buffer-sweep", &c2)
+	}
+
+	// ---- 7b. buffer sizes around maxEncodedLength (fix 413c995).  SerializeRecord computes an upper bound of the
+	// encoded length and encodes into a one-off buffer when the bound does not fit the preallocated one.  The bound
+	// exceeds the event by what the headers are shorter than 5 (3) bytes and by what the rewriters write less than
+	// they reserve.  Buffer sizes just below / at / above the EVENT and just below / at / above the BOUND, for
+	// configurations in which the two are close (many environment fields with 16+ byte values, few visible fields),
+	// far apart (long inlined prefixes, values that shrink when unescaped), and random ones. ----
+	for i := 0; i < g.Pick(160, 6000); i++ {
+		var cc *c10Case
+		cls := ""
+		switch r.Intn(5) {
+		case 0, 1:
+			cc, cls = c10EnvHeavy(r), "bound-env-heavy"
+		case 2, 3:
+			cc, cls = c10InlineHeavy(r), "bound-inline-heavy"
+		default:
+			cc, cls = c10Random(r, r.PickInt([]int{1, 2, 3, 5, 15, 16}), []int{0, 1, 2, 3, 5, 9, 16, 20, 40}), "bound-random"
+		}
+		size := c10MaxSize(cc)
+		bound := c10Bound(cc, &cc.recs[0])
+		ms := map[int]bool{}
+		for d := -3; d <= 1; d++ {
+			ms[(size+d)/2] = true
+		}
+		for d := -2; d <= 3; d++ {
+			ms[(bound+d)/2] = true
+		}
+		if bound-size > 6 {
+			ms[(size+2+r.Intn(bound-size-3))/2] = true
+		}
+		if r.Chance(1, 4) { // followed by a small record through the same serializer (preallocated buffer again)
+			small := c10Rec{unix: cc.recs[0].unix, nsec: cc.recs[0].nsec, fields: make([]string, cc.nrec)}
+			small.fields[r.Intn(cc.nrec)] = "s"
+			cc.recs = append(cc.recs, small, cc.recs[0])
+		}
+		for m := (size - 3) / 2; m <= (bound+3)/2; m++ {
+			if m < 1 || !ms[m] {
+				continue
+			}
+			c2 := *cc
+			c2.M = m
+			switch {
+			case 2*m <= size:
+				c10Emit(g, cls+"/buffer<=event", &c2)
+			case 2*m <= bound:
+				c10Emit(g, cls+"/event<buffer<=bound", &c2)
+			default:
+				c10Emit(g, cls+"/bound<buffer", &c2)
+			}
+		}
+	}
+	// the bound is TIGHT (event == maxEncodedLength) only when every header has its longest form: 15+ schema fields
+	// (map16 root), 16+ environment entries (map16) and every emitted value 65536+ bytes (str32) with rewriters that
+	// write exactly what they reserve.  Then maxLength == len(buffer) needs the one-off buffer (position == len(buffer)
+	// means "full"), and a one-off buffer of maxLength bytes would be one byte short.  Events of about 1 MB.
+	{
+		type tight struct {
+			nenv    int    // environment entries, all naming the same field (duplicates are accepted)
+			visible string // "", "plain", "copy", "inline-copy"
+			deltas  []int  // 2*M - bound
+		}
+		variants := []tight{{17, "", []int{0}}, {16, "", []int{1}}, {16, "copy", []int{0}}}
+		if g.Thorough() {
+			variants = []tight{{17, "", []int{-2, 0, 2}}, {16, "", []int{-3, -1, 1, 3}}, {16, "plain", []int{-1, 0, 1}},
+				{17, "copy", []int{-1, 0, 1}}, {16, "inline-copy", []int{-1, 0, 1}}, {33, "plain", []int{-1, 0, 1}}}
+		}
+		for _, tv := range variants {
+			for _, ns := range []int{15, 16} {
+				if ns == 16 && !g.Thorough() {
+					continue
+				}
+				cc := &c10Case{nout: 1, nrec: ns, schema: c10Schema(r, ns)}
+				rc := c10Rec{fields: make([]string, ns)}
+				rc.unix, rc.nsec = c10Time(r)
+				for k := 0; k < tv.nenv; k++ {
+					cc.env = append(cc.env, cc.schema[0])
+				}
+				rc.fields[0] = c10BigValue(r, 65536+r.Intn(3))
+				switch tv.visible {
+				case "plain":
+					rc.fields[1] = c10BigValue(r, 65536+r.Intn(2))
+				case "copy":
+					rc.fields[1] = c10BigValue(r, 65536+r.Intn(2))
+					cc.rw = []c10Rw{{field: cc.schema[1], chain: []c10Step{{code: c10Copy}}}}
+				case "inline-copy": // the maximum reaches 65536 only through the prefix; hidden source field
+					rc.fields[1] = c10BigValue(r, 65000)
+					rc.fields[2] = c10BigValue(r, 600)
+					cc.hidden = []string{cc.schema[2]}
+					cc.rw = []c10Rw{{field: cc.schema[1], chain: []c10Step{{code: c10Inline, field: cc.schema[2]}, {code: c10Copy}}}}
+				}
+				small := c10Rec{unix: rc.unix, nsec: rc.nsec, fields: make([]string, ns)}
+				small.fields[0] = "e"
+				cc.recs = []c10Rec{rc, small}
+				for _, d := range tv.deltas {
+					bound := c10Bound(cc, &cc.recs[0])
+					if _, size, _ := c10Expected(cc, &cc.recs[0], nil); size != bound {
+						panic(fmt.Sprintf("c10 generator: bound-tight is not tight (%d, %d)", size, bound))
+					}
+					if (bound+d)%2 != 0 {
+						// one more byte in a visible value (or in the environment value when the number of entries is odd)
+						switch {
+						case tv.visible == "plain" || tv.visible == "copy":
+							cc.recs[0].fields[1] += "z"
+						case tv.nenv%2 == 1:
+							cc.recs[0].fields[0] += "z"
+						default:
+							continue
+						}
+						bound = c10Bound(cc, &cc.recs[0])
+					}
+					c2 := *cc
+					c2.recs = append([]c10Rec{}, cc.recs...)
+					c2.M = (bound + d) / 2
+					c10Emit(g, fmt.Sprintf("bound-tight/buffer=bound%+d", d), &c2)
+				}
+			}
+		}
 	}
 
 	// ---- 8. configurations the verifier must reject, or that are accepted but odd ----
